@@ -57,6 +57,36 @@ PROPS = {
         "exhaustive_part": {"quick": "all 12 058 destination offsets once", "thorough": "all destination offsets x 4 rounds of boundary points"},
         "assumptions": TRUST,
     },
+    "C11": {
+        "technique": "TLA+ spec (Ops.tla DurAddFn/DurMulFn/DurEq/DurRough) + TLC trace validation of recorded duration operations and laws",
+        "level_text": "For each triple of durations and multiplier TLC re-derives every recorded result (sum in both orders, both associations, "
+                      "identity, inverse, n*d, n-fold sum, a-b, a+(-1*b)) as <<years, months, exact length>> and requires the library's ==, hash "
+                      "and the four order operators to agree with the specification's equality and rough-length order under the active mode.",
+        "drivers": ["c11"], "mc": [], "expect_ops": ["DurLaws"],
+        "rule": "one case = one triple (a, b, c) + multiplier with all laws evaluated; every case is non-trivial (b is a respelling of a in 30%, "
+                "a one-component perturbation in 10%, mixed signs and week forms throughout)",
+        "assumptions": TRUST,
+    },
+    "C12": {
+        "technique": "TLA+ iterator state machine (Conform.tla it/ser + Ops.tla AddDurTP) + TLC trace validation of step-by-step iteration",
+        "level_text": "The trace specification keeps the open iterator as state (inputs, points yielded so far, last point); every yielded point "
+                      "must be the previous one plus/minus the interval as Ops.tla defines addition (so month/year intervals are covered), "
+                      "stopping is accepted only with exactly n points including the anchor, and the three notations of an exact finite series "
+                      "must be equal and iterate identically.",
+        "drivers": ["c12"], "mc": [], "expect_ops": ["IterOpen", "IterNext", "IterStop", "IterAbandon", "Notations"],
+        "rule": "one case = one recurrence iterated to exhaustion (bounded, n <= 13) or 12 steps (unbounded), or one triple of notations; "
+                "anchors come from the boundary generator, so every case is counted non-trivial",
+        "assumptions": TRUST,
+    },
+    "C13": {
+        "technique": "TLA+ trace spec state `ser` (the series the iterator yielded) + TLC validation of every query against it",
+        "level_text": "Each recurrence is first iterated step by step (validated as in C12, which fills the specification's `ser` state); "
+                      "get_is_valid, r[i], get_next, get_prev and get_first_after are then judged by TLC against that series on the timeline, "
+                      "for members re-expressed in other offsets/representations, points 1 s either side, before the first and after the last.",
+        "drivers": ["c13"], "mc": [], "expect_ops": ["IterOpen", "IterNext", "Query"],
+        "rule": "one case = one recurrence with ~5 probes per member x 5 query kinds; all cases non-trivial",
+        "assumptions": TRUST,
+    },
     "C03": {
         "technique": "TLA+ calendar definition (Cal.tla) model-checked with TLC (+ Apalache lemmas) and TLC trace validation of every conversion row of the real helpers",
         "level_text": "Cal.tla is the proleptic definition; TLC checks it is self-consistent (inverse pairs, week rule, lengths) on every day "
